@@ -45,6 +45,9 @@ def rules(chk, db):
     # Size() is on the wire wherever a value sits in a table entry (the declared entry size) and decides Prepare(): a Size that
     # disagrees with the writer makes the value unwritable there, or the reader's frame end in the wrong place
     encrules.size_rules(chk, db)
+    # a value and its encoding determine each other: the empty / error marker of a wrapper must not be a prefix of the wrapped type
+    from .. import ambrules
+    ambrules.check(chk, db, 'AMB')
     w = chk.extra.get('struct_member_order_w', {})
     r = chk.extra.get('struct_member_order_r', {})
     for t in sorted(set(w) & set(r)):      # types that are both written and read somewhere in the analysed units
